@@ -75,7 +75,7 @@ void AsyncFileSink::setFilePrefix(const std::string &file_prefix)
 void AsyncFileSink::setFileSyncEnable(bool enable)
 {
     file_sync_enable_ = enable;
-    CHECK_CLOSE_RESET_FD(fd_);
+    closeLogFile();
 }
 
 void AsyncFileSink::cleanup()
@@ -89,7 +89,17 @@ void AsyncFileSink::updateInnerValues()
     filename_prefix_ = file_path_ + '/' + file_prefix_ + '.';
     sym_filename_ = filename_prefix_ + "latest.log";
 
-    CHECK_CLOSE_RESET_FD(fd_);
+    closeLogFile();
+}
+
+void AsyncFileSink::closeLogFile()
+{
+    //! part of a record may be in the file while its rest waits in cache_ (write error):
+    //! then the file is closed by flush() once that rest is in it, never in the middle of a record
+    if (fd_ >= 0 && !cache_.empty())
+        need_reopen_ = true;
+    else
+        CHECK_CLOSE_RESET_FD(fd_);
 }
 
 void AsyncFileSink::endline()
@@ -122,8 +132,10 @@ void AsyncFileSink::flush()
     if (!cache_.empty())
         return;
 
-    if (total_write_size_ >= file_max_size_)
+    if (need_reopen_ || total_write_size_ >= file_max_size_) {
         CHECK_CLOSE_RESET_FD(fd_);
+        need_reopen_ = false;
+    }
 }
 
 bool AsyncFileSink::checkAndCreateLogFile()
